@@ -558,6 +558,8 @@ func (x *vf12T) hugeSection() {
 	x.huge(x.startOffset()%(1<<40), 512<<20+1+r.Intn(4096), r.U64()%1000000, vfutil.Pick(r, []int{16, 4096, 1 << 20}))
 	if vfutil.Thorough() {
 		x.huge(7, 768<<20+r.Intn(1<<20), r.U64()%1000000, 65536)
+		x.huge(0, 512<<20, r.U64()%1000000, 4096) // exactly Redis' default proto-max-bulk-len: still legal
+		x.s.Count("dim_argsize_exactly_512MiB")
 	}
 }
 
